@@ -142,7 +142,16 @@ type BytesFuncAccessor interface {
 // the function provided. A reference MUST not be stored to the provided bytes. The underlying array will be wiped after
 // the function exits.
 func WithKeyFunc(key BytesFuncAccessor, action func([]byte) ([]byte, error)) ([]byte, error) {
-	return key.WithBytesFunc(action)
+	ret, err := key.WithBytesFunc(action)
+	if err != nil {
+		// the accessor can fail after action has produced its result (e.g., the key's memory
+		// could not be made inaccessible again), and that result may be key material
+		MemClr(ret)
+
+		return nil, err
+	}
+
+	return ret, nil
 }
 
 type Revokable interface {
